@@ -71,7 +71,41 @@ def run(pid, tier, seed):
                               % (res["flavour"], json.dumps(m["state"]), act, m.get("observed_released"), m.get("released_min"),
                                  m.get("released_max"), why, (" " + str(m.get("error"))) if m.get("error") else ""),
                               dict(m, flavour=res["flavour"], source="tlc-generated-case"))
-    rep.cov.update({"states": states, "transitions": transitions, "traces_validated_against_impl": acts,
+    # impl -> spec: seeded random histories over 6 objects judged step by step by TLC (TraceOwnership)
+    import concurrent.futures as cf
+    HN = dict(quick=(60, 80), thorough=(1500, 120))[tier]
+    jobs = [("record-own", {"flavour": f, "nodes": 6, "histories": HN[0], "steps": HN[1], "seed": seed, "trace": os.path.join(d, "hist_%s.ndjson" % f)},
+             os.path.join(d, "hist_%s.json" % f)) for f in ALL4]
+    recs = vlib.harness_parallel(jobs, timeout=6000)
+    events = 0
+
+    def one(fl):
+        tr = os.path.join(d, "hist_%s.ndjson" % fl)
+        c = {"Nodes": {1, 2, 3, 4, 5, 6}, "Vals": {1}, "Directed": vlib.DIRECTED[fl], "MaxH": 3, "MaxRes": 2,
+             "CloneObjs": {1, 2, 3, 4, 5, 6}, "InsertObjs": {1, 2, 3, 4, 5, 6}}
+        r = vlib.run_tlc("TraceOwnership", vlib.cfg_text(c, spec="TSpec", invariants=["Consumed"], postcondition="AllConsumed"),
+                         "%s/tv_%s" % (tag, fl), workers=1, timeout=3000, env={"TRACE": tr}, deque=True, heap="6g")
+        n = sum(1 for x in open(tr) if x.strip())
+        if not r.ok or r.depth != n + 1:
+            raise ToolError("TraceOwnership did not consume %s: %s (%s)" % (tr, r.violation, r.out_file))
+        return fl, tr, dict(vlib.parse_tla_tuple_prints(r.prints, "REJECT"))
+    with cf.ThreadPoolExecutor(max_workers=4) as ex:
+        for fl, tr, verd in ex.map(one, ALL4):
+            lines = [x for x in open(tr).read().split("\n") if x.strip()]
+            events += len(lines)
+            rep.cov["samples"].append({"flavour": fl, "recorded_history_excerpt": [json.loads(x) for x in lines[1:5]]})
+            for ln, reasons in sorted(verd.items()):
+                if any(x.startswith("driver-error") for x in reasons):
+                    raise ToolError("the random driver issued an action the model does not enable (%s line %d): %s" % (tr, ln, lines[ln - 1]))
+                ev = json.loads(lines[ln - 1])
+                k = max(1, ln - 25)
+                rep.violation("%s:%s:%s" % (fl, (ev.get("a") or ["dropall"])[0], "+".join(sorted(reasons))),
+                              "%s: random history, event %d %s: released %s: %s" % (fl, ln, ev.get("a", "dropall"), ev.get("released"), ", ".join(reasons)),
+                              {"source": "recorded-history", "flavour": fl, "event_no": ln, "event": ev, "history_before": [json.loads(x) for x in lines[k - 1:ln - 1]],
+                               "tlc_reasons": reasons})
+    rep.cov["recorded_events_validated_by_tlc"] = events
+    rep.cov["recorders"] = recs
+    rep.cov.update({"states": states, "transitions": transitions, "traces_validated_against_impl": acts + sum(x["histories"] for x in recs),
                     "tlc_cases_replayed_into_impl": acts, "evaluations": acts, "distinct_nontrivial": nontriv,
                     "result_node_dereferences": derefs,
                     "rule": "one case = (state, action) built from scratch with drop-counting payloads on one flavour; every case distinct; "
